@@ -159,6 +159,15 @@ class Interp:
         self.pending_add.discard(s)
         self.probes['on_add_delivered'] += 1
 
+    def settle_die_later(self):
+        """The queue that legitimately held these objects is empty now."""
+        for s in sorted(self.die_later):
+            if s in self.cfg.get('cyclic', []):
+                self.limbo_unreg.add(s)
+            else:
+                self.must_die[s] = self.wrefs[s]
+        self.die_later.clear()
+
     def must_be_dead_now(self, s, how):
         """The program has just dropped its last reference to slot s: with
         weak registration only, the object dies at this very instant."""
@@ -352,16 +361,26 @@ class Interp:
         eid = self.eids.pop(s)
         cls = self.actors.classes[self.cfg['handlers'][s]]
         sole = s not in self.handlers
+        if how == 'deferred' and self.cbstack:
+            how = 'delete_now'          # no frame from inside a callback
         if self.cbstack:
             self.probes['drop_via.' + how] += 1
             self.note_victim(s)
+        elif how == 'deferred':
+            self.probes['drop_via.deferred'] += 1
         if how == 'remove_component':
             thunk = lambda: self.d.remove_component(eid, cls)   # noqa
+        elif how == 'deferred':
+            def thunk():
+                self.d.delete_entity(eid)
+                self.d.process(1)       # the world has no processors
         else:
             thunk = lambda: self.d.delete_entity(eid, immediate=True)  # noqa
         self.registered.discard(s)
         self.touch(s)
-        if sole and s in self.cfg.get('cyclic', []):
+        if sole and s in self.pending_add:
+            self.die_later.add(s)       # a queued on_add still holds it
+        elif sole and s in self.cfg.get('cyclic', []):
             self.limbo_unreg.add(s)     # unregistered, dies at the next gc
         elif sole:
             self.must_die[s] = self.wrefs[s]
@@ -427,6 +446,28 @@ class Interp:
                 del self.handlers[s]
             return self.op_detach(['detach', s, how])
         return self.op_drop(['drop', s])
+
+    def op_clear_world(self, op):
+        """World.clear(): every World-owned handler loses its owner and
+        every registration is dropped."""
+        if not self.is_world or self.cbstack:
+            return 'skip'
+        victims = [s for s in self.eids if s not in self.handlers]
+        self.eids.clear()
+        self.registered.clear()
+        self.queue = []
+        self.half.clear()
+        self.pending_add.clear()
+        self.enabled = True             # EventDispatcher.clear re-enables
+        e = self.guarded(lambda: self.d.clear(), ('C10', 'C03'), 'clear()')
+        for s in victims:
+            self.probes['drop_via.clear'] += 1
+            if s in self.cfg.get('cyclic', []):
+                self.limbo_unreg.add(s)
+            elif self.must_be_dead_now(s, 'World.clear()'):
+                self.probes['death_verified'] += 1
+        self.settle_die_later()
+        self.finish(e, 'clear_world')
 
     def op_gc(self, op):
         if self.cbstack:
@@ -611,9 +652,7 @@ class Interp:
                 self.fail(('C10', 'C02'), 'callback_missing', f'on_add '
                           f'postponed for h{sorted(self.pending_add)} was '
                           f'not delivered by the enabling assignment')
-            for s in sorted(self.die_later):
-                self.must_die[s] = self.wrefs[s]
-            self.die_later.clear()
+            self.settle_die_later()
             return
         # partial release: a callback raised or disabled dispatching again
         if exc is not None:
@@ -752,7 +791,7 @@ WEIGHTS = {
                 dispatch=6, disable=2, enable=2.2),
     'C10': dict(add_handler=3, remove_handler=.6, is_handler=.4, dispatch=5,
                 drop=1.5, gc=.5, attach=2.5, detach=1, revive=.6,
-                disable=.2, enable=.4),
+                disable=.2, enable=.4, clear_world=.25),
 }
 
 
@@ -802,7 +841,7 @@ def gen_top_op(kind, rng, cfg, state):
         return [kind, rng.randrange(n)]
     if kind == 'detach':
         return ['detach', rng.randrange(n),
-                rng.choice(['remove_component', 'delete_now'])]
+                rng.choice(['remove_component', 'delete_now', 'deferred'])]
     if kind == 'dispatch':
         state['token'] += 1
         ev = rng.choices(EVENTS, [4, 4, 2, 1])[0]
@@ -863,6 +902,7 @@ def generate(prop, run_seed, tier='quick', tolerate=frozenset()):
     if cfg['dkind'] != 'world':
         weights.pop('attach', None)
         weights.pop('detach', None)
+        weights.pop('clear_world', None)
     for k in list(weights):
         if k not in ('add_handler', 'dispatch', 'enable') \
                 and crng.random() < .25:
@@ -1017,6 +1057,7 @@ PROBES = {
             'release_multi'],
     'C10': ['victim_ahead', 'victim_behind', 'drop_via.registry',
             'drop_via.remove_component', 'drop_via.delete_now',
+            'drop_via.deferred', 'drop_via.clear',
             'cyclic_handler_collected', 'death_verified',
             'pending_event_keeps_alive', 'on_add_delivered'],
 }
